@@ -285,6 +285,15 @@ def check_receive(arrivals, originals, obs, compose=None):
         node.close()
 
 
+def classify_reuse(text):
+    ''' Known-finding classifier for the history "complete transfer, late repeat of one of its segments, the same (peer, transfer
+    id, total length) used again": the stale partial entry made by the late repeat is merged with the new transfer.  Only the
+    symptoms of that merge are covered (a spliced bundle queued, queued early); anything else in that history is a new violation. '''
+    if 'equals no bundle that was sent' in text or 'while octets of its transfer are still missing' in text:
+        return 'C13/late-repeat-leaves-partial-entry-that-is-spliced-into-a-reused-transfer-id'
+    return None
+
+
 def cases(tier, seed):
     out = []
     thorough = tier == 'thorough'
@@ -316,7 +325,7 @@ def run_case(case):
     evaluations = 0
     rng = random.Random(case.get('seed', 0))
 
-    def note(problems, tag, desc, cls, nontrivial=True):
+    def note(problems, tag, desc, cls, nontrivial=True, key_fn=None):
         nonlocal sample, evaluations
         evaluations += 1
         if problems is None:
@@ -327,7 +336,7 @@ def run_case(case):
         if sample is None:
             sample = dict(kind=tag, what=desc)
         for text in problems:
-            violations.append(dict(key=None, what='[%s] %s' % (tag, text), detail=dict(case=desc)))
+            violations.append(dict(key=key_fn(text) if key_fn else None, what='[%s] %s' % (tag, text), detail=dict(case=desc)))
 
     kind = case['kind']
     if kind == 'send':
@@ -446,6 +455,19 @@ def run_case(case):
         rng.shuffle(arrivals6)
         note(check_receive(arrivals6, {(PEER, 33): b6}, obs), 'segment-with-other-items', dict(extras=[sorted(e) for e in extras[:3]]),
              'multi3|%s' % ([sorted(e.items(), key=repr) for e in extras[:3]],))
+        # a sender that restarts and uses a transfer id again for another bundle of the same length, after a late repeat of a
+        # segment of the first transfer: every queued item is one of the two bundles, the second one only when it has arrived
+        for late in (0, 1, 2):
+            first = make_bundle(150, seq=60)
+            second = make_bundle(150, seq=61)
+            assert len(first) == len(second)
+            segs_a = segments_of(first, 44, [50, 50, 50])
+            segs_b = segments_of(second, 44, [50, 50, 50])
+            arrivals7 = [(('a', 44), lo, hi, dg, PEER) for (lo, hi, dg) in segs_a]
+            arrivals7.append((('a', 44), segs_a[late][0], segs_a[late][1], segs_a[late][2], PEER))      # the late repeat
+            arrivals7 += [(('b', 44), lo, hi, dg, PEER) for (lo, hi, dg) in segs_b]
+            note(check_receive(arrivals7, {('a', 44): first, ('b', 44): second}, obs, compose='repeats'), 'reused-id-after-late-repeat',
+                 dict(late=late), 'multi4|%d' % late, key_fn=classify_reuse)
         # random compositions of 2-5 messages (whole bundles, segments of one transfer) with or without zero padding behind them:
         # a bundle message that is neither first nor last in its datagram must still be cut out exactly
         for _rep in range(6):
